@@ -35,8 +35,8 @@ Theorem J_snap_cp_sound : forall sn confl i,
   (sn_done sn = true ->
    match cutting_planes st with
    | CPUnsat => sn_newlvl sn = -1
-   | CPUnits us => sn_newlvl sn = 1 /\ sn_props sn = us
-   | CPLearn c props nl => sn_newlvl sn = nl /\ sn_props sn = props
+   | CPUnits us => sn_newlvl sn = 1 /\ (forall y, In y (sn_props sn) <-> In y us)
+   | CPLearn c props nl => sn_newlvl sn = nl /\ (forall y, In y (sn_props sn) <-> In y props)
    | _ => False
    end).
 Proof. exact judge_cp_snap_sound. Qed.
